@@ -62,3 +62,9 @@ def run(P, R, tier):
     cache.k3_weights_setter(P, R)
     cache.k4_thresholds_setter(P, R)
     cache.k5_no_inplace_through_getter(P, R)
+    from ..engines import traps as _traps
+    _traps.check(P, R, ['gmm'], scope='gmm:(log_weighted_likelihood|reduce_loglikelihood|logaddexp_reduce|GMMMachine\\.(log_likelihood|log_weighted_likelihood|variances|weights|variance_thresholds|g_norms|log_weights|means)\\b)')
+    from ..engines import own as _oe2
+    _own2 = _oe2.Own(P)
+    for k_ in ("gmm:e_step", "gmm:log_weighted_likelihood", "gmm:reduce_loglikelihood", "gmm:log_likelihood"):
+        _oe2.check_inplace_views(P, R, _own2, k_)
